@@ -560,6 +560,71 @@ func genC18(g *G) {
 			}
 		}
 	}
+	// forged proofs that satisfy the verification equation under keys with a torsion component (added after seeded change
+	// C18-f, a key blocklist that compared all 32 bytes and so missed the small-order encodings with the sign bit set): for
+	// a small-order key Y and a small-order Gamma, [c]Y = [c]Gamma = 0 whenever 8 | c, so (Gamma, c, s = k) with
+	// c = challenge(Y, H, Gamma, [k]B, [k]H) passes every step of Verify except key validation; k is searched until 8 | c.
+	// The same construction with Y' = Y + T (honest Y = [x]B, T of small order, Gamma = [x]H, s = k + c·x) gives proofs
+	// that an implementation accepts exactly when it validates keys by [8]Y' != 0 only.
+	{
+		reps := 1
+		if g.thorough {
+			reps = 6
+		}
+		torsion := smallOrder[:8]
+		for rep := 0; rep < reps; rep++ {
+			alpha := g.r.bytes(g.r.intn(20))
+			for _, ye := range torsion {
+				yb, _ := hex.DecodeString(ye)
+				H := vrfRefH(yb, alpha)
+				if H == nil {
+					continue
+				}
+				for gi, ge := range torsion {
+					if !g.thorough && gi > 0 && g.r.intn(4) != 0 {
+						continue
+					}
+					gamma := mustPoint(ge)
+					for try := 0; try < 400; try++ {
+						k, _ := new(edwards25519.Scalar).SetUniformBytes(g.r.bytes(64))
+						c := vrfRefChallenge(yb, H.Bytes(), gamma, new(edwards25519.Point).ScalarBaseMult(k), new(edwards25519.Point).ScalarMult(k, H))
+						if c[0]&7 != 0 {
+							continue
+						}
+						pi := append(append(append([]byte(nil), gamma.Bytes()...), c...), k.Bytes()...)
+						g.emit("vrf.verify", hx(yb), hx(alpha), hx(pi))
+						break
+					}
+				}
+			}
+			// honest key plus torsion
+			seed := g.r.bytes(32)
+			hsk := sha512.Sum512(seed)
+			x, _ := new(edwards25519.Scalar).SetBytesWithClamping(hsk[:32])
+			for _, te := range torsion[1:] {
+				Yp := new(edwards25519.Point).ScalarBaseMult(x)
+				Yp.Add(Yp, mustPoint(te))
+				yb := Yp.Bytes()
+				H := vrfRefH(yb, alpha)
+				if H == nil {
+					continue
+				}
+				gamma := new(edwards25519.Point).ScalarMult(x, H)
+				for try := 0; try < 400; try++ {
+					k, _ := new(edwards25519.Scalar).SetUniformBytes(g.r.bytes(64))
+					c := vrfRefChallenge(yb, H.Bytes(), gamma, new(edwards25519.Point).ScalarBaseMult(k), new(edwards25519.Point).ScalarMult(k, H))
+					if c[0]&7 != 0 {
+						continue
+					}
+					cs, _ := new(edwards25519.Scalar).SetCanonicalBytes(append(append([]byte(nil), c...), make([]byte, 16)...))
+					sS := new(edwards25519.Scalar).MultiplyAdd(cs, x, k)
+					pi := append(append(append([]byte(nil), gamma.Bytes()...), c...), sS.Bytes()...)
+					g.emit("vrf.verify", hx(yb), hx(alpha), hx(pi))
+					break
+				}
+			}
+		}
+	}
 	// alphas needing several try-and-increment rounds: search for them with the real hash
 	found := 0
 	for i := 0; found < 3 && i < 4000; i++ {
@@ -576,6 +641,40 @@ func genC18(g *G) {
 	for i := 0; i < 30; i++ {
 		g.emit("vrf.setbytes", hx(g.r.bytes(80)))
 	}
+}
+
+// vrfRefH is an independent ECVRF-EDWARDS25519-SHA512-TAI encode_to_curve (salt = the key bytes as given): first counter
+// whose hash prefix is a canonical point encoding with [8]P != 0; the result is [8]P.
+func vrfRefH(pk, alpha []byte) *edwards25519.Point {
+	id := edwards25519.NewIdentityPoint()
+	for ctr := 0; ctr < 256; ctr++ {
+		h := sha512.New()
+		h.Write([]byte{0x03, 0x01})
+		h.Write(pk)
+		h.Write(alpha)
+		h.Write([]byte{byte(ctr), 0x00})
+		d := h.Sum(nil)
+		if p, err := new(edwards25519.Point).SetBytes(d[:32]); err == nil && bytes.Equal(p.Bytes(), d[:32]) {
+			p.MultByCofactor(p)
+			if p.Equal(id) != 1 {
+				return p
+			}
+		}
+	}
+	return nil
+}
+
+// vrfRefChallenge: the 16-byte challenge string of RFC 9381 section 5.4.3.
+func vrfRefChallenge(pk, hBytes []byte, gamma, u, v *edwards25519.Point) []byte {
+	h := sha512.New()
+	h.Write([]byte{0x03, 0x02})
+	h.Write(pk)
+	h.Write(hBytes)
+	h.Write(gamma.Bytes())
+	h.Write(u.Bytes())
+	h.Write(v.Bytes())
+	h.Write([]byte{0x00})
+	return h.Sum(nil)[:16]
 }
 
 // triesNeeded mirrors the try-and-increment loop to find inputs that exercise several rounds.
